@@ -340,7 +340,7 @@ CHECKS.append({
              "(_get_sys0_info, _parse_file0, _read_whole_file_directory, directory-size and processor-type requests) against the independent "
              "directory-image encoder coq/Spec/SlcDirSpec.v: parse_file0 (encode_dir fs) = dir_view fs for every well-formed directory of every "
              "processor family, and the directory reads tile the image for every size and even chunk (induction); tied by ~4400 correspondence cases "
-             "on the real SLCDriver methods (counts only, no property verdict depends on it)."),
+             "on the real SLCDriver methods, recorded as histograms/notes only (CoverageOnly): the directory is outside the C18 text and no C18 verdict depends on it."),
     "note": COMMON_NOTE + " C18: closed under the global context. bytes values and the ST/A string codecs are not modelled; F values are binary32 bit patterns (NaN excluded); wrong-but-in-range I/O file numbers and affix rejection are checked by Example + correspondence, not by a general theorem.",
     "technique": "Coq proof (regex-matcher lemmas, parser soundness over all spellings, refinement to a data-table model) + model/implementation correspondence and SLC target oracle",
     "design_ref": "DESIGN.md section 7, C18",
